@@ -422,6 +422,10 @@ class CtxCheck:
                             s["samples"].append({"history": _plain(hist), "model_state": repr(r["model_key"])[:600]})
                 per_level.append(len(frontier))
                 frontier = nxt
+                if int(os.environ.get("VERIF_STOP_AFTER", "0") or 0) and s["violations"]:
+                    # opt-in (tools/seedverify.py): the caller only wants to know whether anything is reported
+                    s["capped"] = True
+                    break
         finally:
             if pool is not None:
                 pool.close()
